@@ -49,6 +49,11 @@ M = [
  ("M34", ["C01"], "shuttle-schedulers/src/replay.rs", "            ScheduleStep::Random => {\n                self.steps += 1;\n                self.data_source.next_u64()\n            }", "            ScheduleStep::Random => {\n                self.steps += 1;\n                self.data_source.next_u64() ^ 1\n            }", "replayed random draws differ in the lowest bit"),
 ]
 
+NOTES = {
+ "M12": "equivalent mutant: the releasing arrival removes its own leader token in the same step in which it inserts it, so the epoch value is never observable",
+ "M23": "equivalent mutant for everything the property speaks about: partial_cmp only changes from Less/Greater to Equal-prefix results for clocks of different length with equal common prefix, which the `<=` comparisons used by the runtime treat identically",
+}
+
 def sh(cmd, **kw):
     return subprocess.run(cmd, shell=True, capture_output=True, text=True, **kw)
 
@@ -103,7 +108,10 @@ def main():
         f.write("| id | edit | file | check: exit / first keys | detected |\n|---|---|---|---|---|\n")
         for r in rows:
             cs = "; ".join(f"{c}: {v.get('exit')} {', '.join(v.get('keys', [])[:2])}" for c, v in r.get("checks", {}).items())
-            f.write(f"| {r['id']} | {r['desc']} | {r['file']} | {cs or r.get('status')} | {r.get('detected')} |\n")
+            det = r.get('detected')
+            if not det and r['id'] in NOTES:
+                det = "no — " + NOTES[r['id']]
+            f.write(f"| {r['id']} | {r['desc']} | {r['file']} | {cs or r.get('status')} | {det} |\n")
     print("done")
 
 main()
